@@ -159,6 +159,34 @@ def run(shard, ctx):
                     except Exception as e:  # noqa: BLE001
                         ctx.fail("C05:%s.list_as_%s_raises.%s" % (c.custom, how, type(e).__name__), "%s with its descriptor lists given as %s raised %s: %s" % (c.name, how, type(e).__name__, e),
                                  {"gen": c.custom, "cmd": c.name, "args": a}, exc=e)
+            # the dictionaries of the request as other mappings (a read-only view, a UserDict, a ChainMap over defaults, an
+            # OrderedDict): every level below the keyword arguments, the same list goes out
+            if setname == c.sets[0] and i % 3 == 1 and "_kwargs" in a:
+                import collections
+                import types
+
+                how = ("MappingProxyType", "UserDict", "ChainMap", "OrderedDict")[(i // 3) % 4]
+                if how == "MappingProxyType" and c.custom.startswith("xcopy"):
+                    how = "UserDict"  # (the copy commands write bookkeeping into the caller's descriptors: a read-only view cannot serve)
+                wrap = {"MappingProxyType": types.MappingProxyType, "UserDict": collections.UserDict, "ChainMap": lambda d: collections.ChainMap(d, {}),
+                        "OrderedDict": collections.OrderedDict}[how]
+
+                def remap(x, depth=0):
+                    if isinstance(x, dict):
+                        inner = {k: remap(v, depth + 1) for k, v in x.items()}
+                        return wrap(inner) if depth > 0 else inner
+                    if isinstance(x, list):
+                        return [remap(v, depth + 1) for v in x]
+                    return x
+
+                alt = DO.fresh(a)
+                alt["_kwargs"] = {k: remap(v, 1) if isinstance(v, list) else remap(v, 0) if isinstance(v, dict) and k in ("data",) else remap(v, 1) if isinstance(v, dict) else v for k, v in alt["_kwargs"].items()}
+                try:
+                    judge(ctx, c, setname, "dictionaries_as_%s" % how, a, exp, harness.construct(c, setname, alt))
+                    ctx.count("dictionaries_given_as_other_mappings")
+                except Exception as e:  # noqa: BLE001
+                    ctx.fail("C05:%s.dictionaries_as_%s_raise.%s" % (c.custom, how, type(e).__name__), "%s with its dictionaries given as %s raised %s: %s" % (c.name, how, type(e).__name__, e),
+                             {"gen": c.custom, "cmd": c.name, "args": a}, exc=e)
             # the same dictionary as uniform records have it: optional keys present but neutral (sub_page_code 0 on a page_0 page, an
             # empty session id on a format-00b TransportID, a zero extension on an 8-byte NAA designator)
             if setname == c.sets[0] and i % 2 == 0:
